@@ -25,7 +25,7 @@ size_t g_line0n, g_sawn;
 #define PRE_NUM(X) \
 	X(s != 0 && s->file == ghost_file()) \
 	X(g_in_n <= G_IN_MAX && g_m <= GS_LMAX && gs_canonical()) \
-	X(AT(s, 0) && lex_isdigit(s->chr)) \
+	X(AT(s, 0) && g_li == 0 && lex_isdigit(s->chr)) \
 	X(!s->usebuf && BUF_OK(&s->buf) && s->buf.len == g_len0 && g_len0 <= 1 && (g_len0 == 0 || s->buf.cap >= 1)) \
 	X(g_j < GS_LMAX) \
 	X(NUM_SELECT)
@@ -45,7 +45,7 @@ size_t g_line0n, g_sawn;
 static enum tokenkind number_contract(struct scanner *s)
 REQUIRES(PRE_NUM)
 __CPROVER_assigns(s->chr, s->usebuf, s->loc.line, s->loc.col, s->buf.str, s->buf.len, s->buf.cap,
-                  g_in_pos, g_unget_depth, g_unget_max, g_getc_calls)
+                  g_in_pos, g_li, g_unget_depth, g_unget_max, g_getc_calls)
 __CPROVER_assigns(s->buf.str != 0: __CPROVER_object_whole(s->buf.str))
 __CPROVER_frees(s->buf.str)
 ENSURES(POST_NUM);
